@@ -1213,6 +1213,15 @@ class Explorer:
                     continue
             if targets is None or not self._bindable(csub, targets):  # (the substituted call: a ** dictionary that is known on this path is already spread)
                 self._emit(st, "call", csub, None, c, fi, depth)
+                # numpy's `out=` protocol: f(a, b, out=v) stores the result in v (where=m: only where m holds)
+                outk = next((kw for kw in c.keywords if kw.arg == "out" and isinstance(kw.value, ast.Name)), None)
+                if outk is not None and isinstance(c.func, ast.Attribute) and (dotted(c.func.value) or "") in ("np", "numpy") and isinstance(csub, ast.Call):
+                    pure = copy.copy(csub)
+                    pure.keywords = [kw for kw in csub.keywords if kw.arg not in ("out", "where")]
+                    wh = next((kw.value for kw in csub.keywords if kw.arg == "where"), None)
+                    old_v = st.store.get(outk.value.id, ast.Name(id=outk.value.id, ctx=ast.Load()))
+                    new_v = pure if wh is None else ast.Call(func=ast.Attribute(value=ast.Name(id="np", ctx=ast.Load()), attr="where", ctx=ast.Load()), args=[wh, pure, old_v], keywords=[])
+                    st.store[outk.value.id] = new_v
                 if self.exceptions and k.catches:
                     s2 = st.fork()
                     yield from k.exc(s2, None, c)
